@@ -17,11 +17,14 @@ Proof. exact pv_formula. Qed.
 Theorem C12_pv_pool : forall fb roots, wf roots = true -> eval (pvids_terms fb roots) = total tot_pv roots.
 Proof. exact pvids_formula. Qed.
 
-(* pools over a subset of the inverters (battery ids of the inverters [bsel] / PV inverter ids [psel]):
-   the total of exactly the requested inverters, also when they share a dedicated meter with others.
+(* pools over a subset (battery ids [bids] / PV inverter ids [psel]): the total of exactly the inverters
+   of the requested batteries / the requested inverters, also when they share a dedicated meter with
+   others.  Inverters may share batteries (the battery lists of BatInv nodes need not be disjoint);
+   the generator is defined (Some) iff every inverter of a requested battery has all its batteries
+   requested (GraphFacts.battery_pool_defined).
    (Before the fix of finding F9b the shared meter was read: GraphFacts.pool_before_fix_refuted.) *)
-Theorem C12_battery_pool : forall fb roots bsel, wf roots = true ->
-  eval (battery_pool_terms fb roots bsel) = total (tot_sel (bat_sel bsel)) roots.
+Theorem C12_battery_pool : forall fb roots bids ts, wf roots = true ->
+  battery_pool_terms fb roots bids = Some ts -> eval ts = total (tot_sel (bat_sel bids)) roots.
 Proof. exact battery_pool_formula. Qed.
 
 Theorem C12_pv_pool_subset : forall fb roots psel, wf roots = true ->
@@ -89,14 +92,14 @@ Theorem C12_terms_within_tree : forall fb roots,
   within roots (consumer_terms fb roots) /\ within roots (producer_terms fb roots) /\
   within roots (pv_terms fb roots) /\ within roots (pvids_terms fb roots) /\
   within roots (battery_terms fb roots) /\ within roots (ev_terms roots) /\
-  (forall bsel, within roots (battery_pool_terms fb roots bsel)) /\
+  (forall bids ts, battery_pool_terms fb roots bids = Some ts -> within roots ts) /\
   (forall g, grid_terms fb roots = Some g -> within roots g) /\
   (forall ts, chp_terms roots = Some ts -> within roots ts).
 Proof.
   exact (fun fb roots =>
     conj (within_consumer fb roots) (conj (within_producer fb roots) (conj (within_pv fb roots)
     (conj (within_by_inverters _ _ fb roots) (conj (within_by_inverters _ _ fb roots) (conj (within_ev roots)
-    (conj (fun bsel => within_by_inverters _ _ fb roots) (conj (within_grid fb roots) (within_chp roots))))))))).
+    (conj (within_battery_pool fb roots) (conj (within_grid fb roots) (within_chp roots))))))))).
 Qed.
 
 Theorem C12_balance_by_id : forall fb roots,
@@ -126,6 +129,16 @@ Example C12_nonvacuous :
   eval (battery_terms true roots) = 7 /\ eval (ev_terms roots) = 6 /\
   option_map eval (grid_terms true roots) = Some (-29) /\
   wf f9_witness = true /\ eval (consumer_terms true f9_witness) = 7.
+Proof. vm_compute. repeat split; reflexivity. Qed.
+
+(* non-vacuity with SHARED batteries (N:M): inverter 4 -> batteries 8 and 10, inverter 5 -> battery 10
+   only, inverter 6 -> battery 11, behind battery meter 3.  The formulas sum INVERTER powers. *)
+Example C12_shared_batteries :
+  let roots := [Meter 2 [Meter 3 [BatInv 4 [8; 10] 700; BatInv 5 [10] 400; BatInv 6 [11] 30] 0; PvInv 7 (-50)] 9] in
+  wf roots = true /\ eval (battery_terms true roots) = 1130 /\ eval (battery_terms false roots) = 1130 /\
+  option_map eval (battery_pool_terms true roots [8; 10]) = Some 1100 /\
+  option_map eval (battery_pool_terms true roots [11]) = Some 30 /\
+  battery_pool_terms true roots [10] = None /\ eval (consumer_terms true roots) = 9.
 Proof. vm_compute. repeat split; reflexivity. Qed.
 
 Print Assumptions C12_pv.
